@@ -175,9 +175,7 @@ def random_scenario(ctx):
         if kind == "flow":
             cfg["dflt"] = rng.choice([0, 1])
         for _ in range(rng.randint(2, 10)):
-            puts.append({"f": rng.choice([0, 1, n - 1, n, n + 1, rng.randint(0, 9)]) if n else rng.randint(0, 3), "s": 0, "mods": []})
-        for p in puts:
-            p["f"] = max(0, p["f"])
+            puts.append({"f": rng.choice([0, 1, n - 1, n, n + 1, rng.randint(0, 9), -1, -n]) if n else rng.randint(-1, 3), "s": 0, "mods": []})
     elif kind in ("fib", "fair"):
         n = rng.randint(0 if kind == "fib" else 1, 6)
         flows = rng.sample(range(0, 14), rng.randint(0, 8))
